@@ -13,6 +13,7 @@
 #include <cstring>
 #include <string>
 #include <vector>
+#include <stdint.h>
 #include <map>
 #include <sstream>
 #include <iostream>
@@ -328,6 +329,20 @@ static void yieldPoint() {
 		if (o >= 0) { if (!forced) gBudget--; me.resumeAt = forced ? gCallsDone + fw : gCallsDone + 1 + srnd() % 3; printf("preempt %d %ld\n", tMe, me.yields); switchTo(o); me.resumeAt = -1; }
 	}
 }
+// `initix`: application mutex callbacks whose handles are NOT pointers (index + 1 into a table of the application) - the library may only hand them back to these callbacks.
+// Single-threaded use: locking a mutex that is locked is a self-deadlock of the library and is counted instead of waited for; so is every call with a handle the
+// application never issued or has destroyed.  `nop mxstat` prints the counters.
+static std::vector<int> ixState;   // 0 destroyed, 1 alive, 2 locked
+static long ixCreated = 0, ixDestroyed = 0, ixBad = 0, ixRelock = 0;
+static bool ixOk(CK_VOID_PTR p) { uintptr_t i = (uintptr_t)p; return i >= 1 && i <= ixState.size() && ixState[i - 1] != 0; }
+static CK_RV ixCreateMutex(CK_VOID_PTR_PTR pp) { ixState.push_back(1); ixCreated++; *pp = (CK_VOID_PTR)(uintptr_t)ixState.size(); return CKR_OK; }
+static CK_RV ixDestroyMutex(CK_VOID_PTR p) { if (!ixOk(p)) { ixBad++; return CKR_MUTEX_BAD; } ixState[(uintptr_t)p - 1] = 0; ixDestroyed++; return CKR_OK; }
+static CK_RV ixLockMutex(CK_VOID_PTR p) {
+	if (!ixOk(p)) { ixBad++; return CKR_MUTEX_BAD; }
+	if (ixState[(uintptr_t)p - 1] == 2) { ixRelock++; return CKR_OK; }
+	ixState[(uintptr_t)p - 1] = 2; return CKR_OK;
+}
+static CK_RV ixUnlockMutex(CK_VOID_PTR p) { if (!ixOk(p)) { ixBad++; return CKR_MUTEX_BAD; } ixState[(uintptr_t)p - 1] = 1; return CKR_OK; }
 static CK_RV schedCreateMutex(CK_VOID_PTR_PTR pp) { SMutex* m = new SMutex; m->owner = -1; *pp = m; return CKR_OK; }
 static CK_RV schedDestroyMutex(CK_VOID_PTR p) { delete (SMutex*)p; return CKR_OK; }
 static CK_RV schedLockMutex(CK_VOID_PTR p) {
@@ -351,7 +366,8 @@ static void run(const std::vector<std::string>& t) {
 	auto H = [&](size_t i) { return i < t.size() ? handleArg(t[i]) : 0UL; };
 	auto N = [&](size_t i) { return i < t.size() ? strtoul(t[i].c_str(), NULL, 0) : 0UL; };
 
-	if (op == "nop" || op == "cfgmechs") { fprintf(out, "= 0\n"); }
+	if (op == "nop" && t.size() > 1 && t[1] == "mxstat") { fprintf(out, "= 0 %ld %ld %ld %ld\n", ixCreated, ixDestroyed, ixBad, ixRelock); }
+	else if (op == "nop" || op == "cfgmechs") { fprintf(out, "= 0\n"); }
 	else if (op == "wipe" || op == "snapshot" || op == "restore") {
 		// token-directory management between C_Finalize and C_Initialize (many short traces in one process)
 		const char* td = getenv("VERIF_TOKENDIR");
@@ -485,10 +501,11 @@ static void run(const std::vector<std::string>& t) {
 		fprintf(out, "= %d\n", rc);
 	}
 	else if (op == "init") { fprintf(out, "= %lu\n", C_Initialize(NULL_PTR)); maxHandleSeen = 0; }
-	else if (op == "initmx" || op == "initos") {
+	else if (op == "initmx" || op == "initos" || op == "initix") {
 		// C18: locking enabled, with the application's mutex callbacks (the scheduler's yield points) or with OS locking
 		CK_C_INITIALIZE_ARGS a; memset(&a, 0, sizeof a);
 		if (op == "initmx") { a.CreateMutex = schedCreateMutex; a.DestroyMutex = schedDestroyMutex; a.LockMutex = schedLockMutex; a.UnlockMutex = schedUnlockMutex; }
+		else if (op == "initix") { a.CreateMutex = ixCreateMutex; a.DestroyMutex = ixDestroyMutex; a.LockMutex = ixLockMutex; a.UnlockMutex = ixUnlockMutex; }
 		else a.flags = CKF_OS_LOCKING_OK;
 		fprintf(out, "= %lu\n", C_Initialize(&a)); maxHandleSeen = 0;
 	}
@@ -918,7 +935,8 @@ int main(int argc, char** argv) {
 			// a FRESH process (exec) runs the given op file on the same token directory; its transcript goes to the same output
 			fprintf(out, "%s\n= 0\n", line.c_str()); fflush(out);
 			pid_t pid = fork();
-			if (pid == 0) { execl(gSelf.c_str(), gSelf.c_str(), t[1].c_str(), (char*)NULL); _exit(3); }
+			// the alarm survives exec: a recovery process that hangs (e.g. on a mutex of its own) is ended by SIGALRM and reported with status 1014
+			if (pid == 0) { alarm(120); execl(gSelf.c_str(), gSelf.c_str(), t[1].c_str(), (char*)NULL); _exit(3); }
 			int st = 0; waitpid(pid, &st, 0);
 			fprintf(out, "recoverdone\n= %d\n", WIFEXITED(st) ? WEXITSTATUS(st) : 1000 + WTERMSIG(st)); fflush(out);
 			continue;
